@@ -23,3 +23,8 @@ func VerifC20ResetSuppression() {
 
 // VerifC20Quiesce is the declared quiesce window.
 func VerifC20Quiesce() time.Duration { return reloadFailureQuiesce }
+
+// VerifC20Yield is called by the instrumented copy of sticky_cache.go (built by tools/c20.py with
+// -overlay; the file in /repo has no such calls) before every statement of Begin/End
+// ReloadProxyFailureSuppression.  The cmd harness installs its scheduler here.
+var VerifC20Yield = func(fn, label string) {}
